@@ -27,8 +27,9 @@ META = {
     "level_note": (
         "Trusted: agreement of the hand-written models with the code beyond the sampled "
         "inputs; verification functions/methods are deterministic oracles; side condition "
-        "'distinct sub-expressions have distinct canonical keys' is decidable and checked on "
-        "every case instead of being proved for all expressions; bool-valuedness only under "
+        "'the operand of a None-test shares its canonical key with no other sub-expression' is "
+        "proved for None-tests on access paths (C07_canon_path_inj) and otherwise decidable and "
+        "checked on every case; bool-valuedness only under "
         "the stated exclusion (known finding: operand/argument types are not checked)."
     ),
     "technique": "Coq proof (structural induction, type soundness with flow-sensitive "
@@ -43,7 +44,11 @@ TRUSTED = [
     "verification functions and methods are modelled as deterministic oracles",
     "harness/gen/typeinf.py prints the same meta-model as source text and as Coq symbol table",
 ]
-RULE = ("case = (meta-model, class, invariant); invariants are generated well-typed by "
+RULE = ("case = (meta-model, class, invariant) or (meta-model, verification function with "
+        "arguments whose body is `return <expression>`); loop variables re-using names of "
+        "arguments / `self` / globals and narrowing of a member of an outer name followed by a "
+        "quantifier that re-binds that name are generated (expected verdict: rejected); "
+        "invariants are generated well-typed by "
         "construction over randomly generated classes (None-guards via and/or/implication, "
         "quantifiers over lists and ranges, len, verification functions, methods, enum and "
         "set membership, f-strings) and about half receive one typed mutation (dropped guard, "
@@ -64,27 +69,32 @@ Open Scope Z_scope.
 """ + g.COQ_ORACLES + """
 Definition G_of (c : text) : tenv := (s2l "self", TClass c) :: base_tenv.
 
-Definition caseA := (symtab * text * expr * nat * list ty * list text)%type.
+(* is_fn = the expression is the returned value of a verification function: its calls are
+   not visited by the call check of _translate (only contracts and invariants are). *)
+Definition vd (St : symtab) (G : tenv) (is_fn : bool) (e : expr) : nat :=
+  if is_fn then match infer false St G [] e with Some _ => 0%nat | None => 2%nat end
+  else verdict St G e.
+Definition caseA := (symtab * tenv * bool * expr * nat * list ty * list text)%type.
 Definition caseA_ok (c : caseA) : bool :=
   match c with
-  | (St, cls, e, v, tys, cans) =>
-      Nat.eqb (verdict St (G_of cls) e) v
+  | (St, G, isfn, e, v, tys, cans) =>
+      Nat.eqb (vd St G isfn e) v
       && (negb (Nat.eqb v 0)
-          || list_eqb (option_eqb ty_eqb) (type_trace false St (G_of cls) [] e) (map Some tys))
+          || list_eqb (option_eqb ty_eqb) (type_trace false St G [] e) (map Some tys))
       && match cans with
          | [] => true
          | _ => list_eqb text_eqb (canon_trace e) cans
          end
   end.
 Definition keys_ok (c : caseA) : bool :=
-  match c with (St, cls, e, v, tys, cans) => keys_distinctb e end.
+  match c with (St, G, isfn, e, v, tys, cans) => keys_distinctb e end.
 Definition strict_ok (c : caseA) : bool :=
   match c with
-  | (St, cls, e, v, tys, cans) =>
-      match infer true St (G_of cls) [] e with Some (TPrim PBool) => true | _ => false end
+  | (St, G, isfn, e, v, tys, cans) =>
+      match infer true St G [] e with Some (TPrim PBool) => true | _ => false end
   end.
 Definition lax_ok (c : caseA) : bool :=
-  match c with (St, cls, e, v, tys, cans) => Nat.eqb (verdict St (G_of cls) e) 0 end.
+  match c with (St, G, isfn, e, v, tys, cans) => Nat.eqb (vd St G isfn e) 0 end.
 Fixpoint bad_from {A} (ok : A -> bool) (i : nat) (cs : list A) : list nat :=
   match cs with
   | [] => []
@@ -94,13 +104,19 @@ Definition badA := bad_from caseA_ok 0.
 Definition badK := bad_from keys_ok 0.
 Definition badS := bad_from strict_ok 0.
 Definition badL := bad_from lax_ok 0.
+(* cases outside the fragment for which the key side condition is proved *)
+Definition paths_ok (c : caseA) : bool :=
+  match c with (St, G, isfn, e, v, tys, cans) => guards_on_paths e end.
+Definition badP := bad_from paths_ok 0.
 
 Inductive expect := EVal (v : value) | EObj (oid : nat) | ERaise (x : exn).
-Definition caseB := (value * expr * expect)%type.
+Definition mk_env_l (locals : list (text * value)) : env :=
+  mkEnv (locals ++ globals) fn_model meth_model lits_model.
+Definition caseB := (list (text * value) * expr * expect)%type.
 Definition caseB_ok (c : caseB) : bool :=
   match c with
-  | (self, e, ex) =>
-      match eval (mk_env self) e 64, ex with
+  | (locals, e, ex) =>
+      match eval (mk_env_l locals) e 200, ex with
       | Val v, EVal w => value_eqb v w
       | Val (VObj i _ _), EObj j => Nat.eqb i j
       | Raise x, ERaise y => exn_eqb x y
@@ -155,6 +171,16 @@ CORPUS = [
     "self.item.compute == 3",
     "self.item.weight(3) == 3",
     "all(x > 0 for self in self.li0)",
+    # loop variables must not re-use a name of any outer scope (self, globals)
+    "all(self > 0 for self in self.li0)",
+    "all(self.weight is None for self in self.items)",
+    "self.weight is None or all(self.weight > 0 for self in self.items)",
+    "not (self.weight is not None) or any(self.weight > 0 for self in self.items)",
+    "self.weight is not None and all(self.weight > 0 for self in self.items)",
+    "all(len > 0 for len in self.li0)",
+    "all(Color > 0 for Color in self.li0)",
+    "all(Valid_names > 0 for Valid_names in self.li0) or any(is_ok > 0 for is_ok in range(0, 3))",
+    "all(x > 0 for x in self.li0) and any(x.name != '' for x in self.items)",
     # Optional operand on either side of every operator that requires non-None
     "0 < self.oi0",
     "self.i0 == self.oi0",
@@ -185,6 +211,44 @@ CORPUS = [
     "self.oi0 is not None and self.os0 is not None and len(self.os0) > self.oi0",
     "self.item.weight is not None and self.opt_item is not None and self.opt_item.weight > 0",
     "is_ok(self.s0) and opt_ok(self.os0) and opt_ok(self.s0) and both_pos(self.i0, self.oi0)",
+]
+
+
+ITEM, ITEMS = ("class", "Item"), ("list", ("class", "Item"))
+# (parameters, returned expression): loop variables and the names of outer scopes
+FN_CORPUS = [
+    ([("item", ITEM), ("items", ITEMS)],
+     "(item.weight is None) or all(item.weight > 0 for item in items)"),
+    ([("item", ITEM), ("items", ITEMS)],
+     "(item.weight is None) or all(x.weight is None or item.weight > 0 for x in items)"),
+    ([("item", ITEM), ("items", ITEMS)],
+     "not (item.weight is not None) or any(item.weight > 0 for item in items)"),
+    ([("item", ITEM), ("items", ITEMS)],
+     "item.weight is not None and all(item.weight > 0 for item in items)"),
+    ([("item", ITEM), ("items", ITEMS)],
+     "all(x.weight is None or x.weight > 0 for x in items) and item.weight is None"),
+    ([("items", ITEMS)], "all(len > 0 for len in items)"),
+    ([("items", ITEMS)], "all(Color.weight is None for Color in items)"),
+    ([("items", ITEMS)], "all(is_ok.name != '' for is_ok in items)"),
+    ([("items", ITEMS)], "all(items.name != '' for items in items)"),
+    ([("n", g.INT), ("numbers", ("list", g.INT))], "all(n > 0 for n in numbers)"),
+    ([("n", g.INT), ("numbers", ("list", g.INT))], "all(n > 0 for n in range(0, n))"),
+    ([("n", g.INT), ("numbers", ("list", g.INT))], "all(x > n for x in numbers) and any(x > 0 for x in numbers)"),
+    ([("opt_n", ("opt", g.INT)), ("numbers", ("list", g.INT))],
+     "opt_n is None or all(opt_n > 0 for opt_n in numbers)"),
+    ([("opt_n", ("opt", g.INT)), ("numbers", ("list", g.INT))],
+     "opt_n is None or all(x > opt_n for x in numbers)"),
+    ([("opt_n", ("opt", g.INT)), ("numbers", ("list", g.INT))], "all(x > opt_n for x in numbers)"),
+    ([("opt_item", ("opt", ITEM)), ("items", ITEMS)],
+     "opt_item is None or opt_item.weight is None or all(x.weight is None or x.weight >= opt_item.weight for x in items)"),
+    ([("text", g.STR), ("opt_text", ("opt", g.STR))],
+     "opt_text is None or len(opt_text) > len(text)"),
+    ([("text", g.STR), ("opt_text", ("opt", g.STR))], "len(opt_text) > len(text)"),
+    ([("text", g.STR), ("opt_text", ("opt", g.STR))], "is_ok(text) and opt_ok(opt_text) and is_ok(opt_text)"),
+    ([("holder", ("class", "Holder"))],
+     "holder.weight is None or all(holder.weight > 0 for holder in holder.items)"),
+    ([("holder", ("class", "Holder"))],
+     "holder.opt_items is None or all(x.weight is None for x in holder.opt_items)"),
 ]
 
 
@@ -238,11 +302,18 @@ def nontrivial(tree: Dict[str, Any]) -> bool:
                                 '"MethodCall"'))
 
 
+def instance_of(models, mi, cls, j):
+    payload = models[mi][1]
+    if cls.startswith("fn:"):
+        return payload["fn_args"][cls[3:]][j]
+    return payload["instances"][cls][j]
+
+
 def build_models(ctx: lib.Ctx):
     """-> list of (MetaModel, payload dict, {desc: (cls, src, kind)})"""
     rng = ctx.rng
     n_models = int(os.environ.get("C07_MODELS", "0")) or ctx.n(10, 150)
-    n_holder, n_item = 36, 8
+    n_holder, n_item, n_fn = 30, 6, 14
     models = []
     for mi in range(n_models):
         mm = g.MetaModel(rng, mi)
@@ -264,14 +335,44 @@ def build_models(ctx: lib.Ctx):
             for _ in range(n):
                 e = eg.invariant()
                 kind = "wellformed"
-                if rng.random() < 0.5:
+                r = rng.random()
+                if r < 0.06:
+                    x = eg.narrow_then_shadow([(g.SELF, ("class", cls))])
+                    if x is not None:
+                        kind, e = "narrow_then_shadow", x
+                elif r < 0.53:
                     m = g.mutate(rng, mm, cls, e)
                     if m is not None:
                         kind, e = m
                 add(cls, e, kind)
+        # verification functions with arguments; the body is `return <expression>`
+        eg = g.ExprGen(rng, mm, "Holder")
+        fn_specs = []
+        if mi == 0:
+            for params, body in FN_CORPUS:
+                fn_specs.append((params, ("raw", body), "corpus"))
+        for _ in range(n_fn):
+            params = eg.random_params()
+            e = eg.function_body(params)
+            kind = "wellformed"
+            r = rng.random()
+            if r < 0.25:
+                x = eg.narrow_then_shadow([(("name", n), t) for n, t in params])
+                if x is not None:
+                    kind, e = "narrow_then_shadow", x
+            elif r < 0.6:
+                m = g.mutate(rng, mm, "Holder", e, outer_names=[n for n, _ in params])
+                if m is not None:
+                    kind, e = m
+            fn_specs.append((params, e, kind))
         ig = g.InstanceGen(rng, mm)
         inst = {"Holder": ig.instances("Holder", 4), "Item": ig.instances("Item", 3)}
-        models.append((mm, {"source": mm.source(), "instances": inst,
+        fn_args = {}
+        for k, (params, e, kind) in enumerate(fn_specs):
+            fname = f"vf_{k}"
+            mm.functions[fname] = (params, e, kind)
+            fn_args[fname] = ig.arg_tuples(params, 6)
+        models.append((mm, {"source": mm.source(), "instances": inst, "fn_args": fn_args,
                             "overrides": g.OVERRIDES}, info))
     # wrong arity / unknown function: rejected by _translate for the whole model, hence
     # one invariant per model
@@ -341,7 +442,7 @@ def streams(ctx: lib.Ctx) -> None:
             cans = g.clist(g.ctext(c) for c in rec.get("canon", []))
             tree = g.ctree(rec["tree"])
             ia.append(len(casesA))
-            casesA.append(f"(st, {g.ctext(cls)}, {tree}, {v}%nat, {tys}, {cans})")
+            casesA.append(f"(st, G_of {g.ctext(cls)}, false, {tree}, {v}%nat, {tys}, {cans})")
             metaA.append({"model": mi, "cls": cls, "source": source, "kind": kind,
                           "verdict": rec.get("verdict", "translate-error" if translate_failed
                                              else "?"),
@@ -353,8 +454,47 @@ def streams(ctx: lib.Ctx) -> None:
                     n_unmodelled_results += 1
                     continue
                 ib.append(len(casesB))
-                casesB.append(f"({inst_names[cls][j]}, {tree}, {ex})")
+                casesB.append(f"([(s2l \"self\", {inst_names[cls][j]})], {tree}, {ex})")
                 metaB.append({"model": mi, "cls": cls, "source": source, "instance": j,
+                              "observed": r})
+        for rec in res.get("functions", []):
+            fname = rec["name"]
+            if fname not in mm.functions:
+                continue
+            params, spec, kind = mm.functions[fname]
+            source = f"def {fname}(" + ", ".join(f"{n}: {g.T_src(t)}" for n, t in params) \
+                     + "): return " + g.src(spec)
+            if "tree" not in rec:
+                raise lib.HarnessError(f"unmodelled function body: {rec.get('tree_error')} in {source}")
+            if rec.get("verdict", "").startswith("not-transpilable"):
+                raise lib.HarnessError(f"generated function is not transpilable: {source}")
+            v = verdict_code(rec, translate_failed)
+            verdict_hist[v] += 1
+            kind_hist["fn:" + kind] = kind_hist.get("fn:" + kind, 0) + 1
+            tys = g.clist(g.ctype_json(t) for t in rec.get("types", [])) if v == 0 else "[]"
+            cans = g.clist(g.ctext(c) for c in rec.get("canon", []))
+            tree = g.ctree(rec["tree"])
+            G = "(" + g.clist(f"({g.ctext(n)}, {g.ctype_json(g.T_json(t))})" for n, t in params) \
+                + " ++ base_tenv)"
+            ia.append(len(casesA))
+            casesA.append(f"(st, {G}, true, {tree}, {v}%nat, {tys}, {cans})")
+            metaA.append({"model": mi, "cls": "fn:" + fname, "source": source, "kind": kind,
+                          "verdict": rec.get("verdict", "?"), "tree": rec["tree"],
+                          "results": rec.get("results"), "messages": rec.get("messages")})
+            for j, r in enumerate(rec.get("results") or []):
+                ex = expect_term(r)
+                if ex is None:
+                    n_unmodelled_results += 1
+                    continue
+                argv = payload["fn_args"][fname][j]
+                names = []
+                for (n, _), val in zip(params, argv):
+                    nm = f"arg_{fname}_{j}_{n}"
+                    header.append(f"Definition {nm} : value := {g.cvalue(val)}.")
+                    names.append(f"({g.ctext(n)}, {nm})")
+                ib.append(len(casesB))
+                casesB.append(f"({g.clist(names)}, {tree}, {ex})")
+                metaB.append({"model": mi, "cls": "fn:" + fname, "source": source, "instance": j,
                               "observed": r})
         hdr = "\n".join(header) + "\n"
         headers.append(hdr)
@@ -363,12 +503,15 @@ def streams(ctx: lib.Ctx) -> None:
                      + "Definition casesB : list caseB := " + g.clist(casesB[i] for i in ib) + ".\n"
                      + "Eval vm_compute in (badA casesA).\nEval vm_compute in (badK casesA).\n"
                      + "Eval vm_compute in (badS casesA).\nEval vm_compute in (badL casesA).\n"
-                     + "Eval vm_compute in (badB casesB).\n")
+                     + "Eval vm_compute in (badB casesB).\nEval vm_compute in (badP casesA).\n")
         unit_meta.append({"A": ia, "B": ib})
 
     outs = g.run_units(ctx.work, "cases", units, ncpu=lib.NCPU)
     bad, badk, not_strict, not_lax, badb = [], [], set(), set(), []
+    n_not_paths = 0
     for um, o in zip(unit_meta, outs):
+        if len(o) == 6:
+            n_not_paths += len(o.pop())
         if len(o) != 5:
             raise lib.HarnessError(f"cannot parse the result of a cases file: {o}")
         bad += [um["A"][i] for i in o[0]]
@@ -381,8 +524,8 @@ def streams(ctx: lib.Ctx) -> None:
     for i in bad[:12]:
         m = metaA[i]
         model_out = lib.coq_eval(ctx.work, "showA", headers[m["model"]],
-                                 f"let c := {casesA[i]} in match c with (St, cls, e, v, t, k) => "
-                                 f"(verdict St (G_of cls) e, type_trace false St (G_of cls) [] e, canon_trace e) end")
+                                 f"let c := {casesA[i]} in match c with (St, G, isfn, e, v, t, k) => "
+                                 f"(vd St G isfn e, type_trace false St G [] e, canon_trace e) end")
         ctx.corr_break("typeinf-verdict-types-keys",
                        {"source": m["source"], "class": m["cls"], "kind": m["kind"],
                         "meta_model": models[m["model"]][1]["source"]},
@@ -396,9 +539,9 @@ def streams(ctx: lib.Ctx) -> None:
         m = metaB[i]
         model_out = lib.coq_eval(ctx.work, "showB", headers[m["model"]],
                                  f"let c := {casesB[i]} in match c with (s, e, x) => "
-                                 f"eval (mk_env s) e 64 end")
+                                 f"eval (mk_env_l s) e 200 end")
         ctx.corr_break("pyeval", {"source": m["source"], "class": m["cls"],
-                                  "instance": models[m["model"]][1]["instances"][m["cls"]][m["instance"]]},
+                                  "instance": instance_of(models, m["model"], m["cls"], m["instance"])},
                        model_out[-800:], m["observed"])
 
     if os.environ.get("C07_DEBUG"):
@@ -427,7 +570,7 @@ def streams(ctx: lib.Ctx) -> None:
     for i, j, r in failing:
         m = metaA[i]
         pos = i
-        inst = models[m["model"]][1]["instances"][m["cls"]][j]
+        inst = instance_of(models, m["model"], m["cls"], j)
         observed = r
         how = ("load the meta-model, check that type inference accepts the invariant, then "
                "evaluate the lambda on the instance (harness/impl/typeinf.py does exactly this)")
@@ -462,7 +605,9 @@ def streams(ctx: lib.Ctx) -> None:
                                                "failed_to_infer": verdict_hist[2],
                                                "exception": verdict_hist[3]},
               kinds=kind_hist, meta_models=len(models))
-    ctx.count("keys-distinct-side-condition", len(casesA))
+    ctx.count("keys-distinct-side-condition", len(casesA),
+              none_tests_all_on_access_paths=len(casesA) - n_not_paths,
+              none_tests_on_other_expressions=n_not_paths)
     ctx.count("pyeval", len(casesB), validated=len(casesB),
               results_outside_model=n_unmodelled_results)
     ctx.count("oracle", n_runs, index_errors=n_index,
